@@ -12,7 +12,8 @@ CLAUSES (statement / quantifier axis -> facet(s); deciding assertion; populated 
          boundary flags), bounds-fmt-%.16e, number formats fmt%g / %.6f / %.10e (scientific) / %.17g / %.3f
   2 2D or 3D                                   -> d2 / d3 (every facet); 2D with and without a z column (zcol)
   3 x, xs, xu coordinate style                 -> x / xs / xu; ortho_x_xu, ortho_xs, tri_x, tri_xs, tri_xu
-  4 orthogonal or triclinic, tilts either sign -> ortho / tri / negtilt (tri_* facets, multi_frame, sizes, sequence)
+  4 orthogonal or triclinic, tilts either sign -> ortho / tri / negtilt (tri_* facets, multi_frame, sizes, sequence);
+         cell-kinds-mixed (orthogonal and triclinic headers in one file: change_box)
   5 atom lines in any order                    -> shuffled / ordered; order-reversed, order-random in `sizes`
   6 any number of frames                       -> frames1..4 (multi_frame), frames-boundary-<T> (sizes: T around 32,
          50, 64, 100, 128, 256 [thorough: 500, 512, 1000, 1024]); one snapshot per frame in file order whatever the
@@ -237,7 +238,10 @@ def dump_st(draw, cellkinds=("ortho", "tri"), styles=("x", "xs", "xu"), frames=(
                 g["elem"]["first"] = f0["elem"]["first"]
             fr.append(g)
     else:
-        fr = [draw(frame_st(d, style, cellkind, fmt, N=None if nmax is None else draw(st.integers(0, nmax))))
+        # a run that switches between an orthogonal and a triclinic box (change_box): the header kind is per frame
+        mixed = T > 1 and len(cellkinds) > 1 and draw(st.integers(0, 3)) == 0
+        fr = [draw(frame_st(d, style, draw(st.sampled_from(list(cellkinds))) if mixed else cellkind, fmt,
+                            N=None if nmax is None else draw(st.integers(0, nmax))))
               for _ in range(T)]
     steps, sched = _steps(draw, T)
     if sched in ("repeats", "all-equal") and T > 1 and draw(st.booleans()):
@@ -567,7 +571,7 @@ def compare(tag, snaps, expected, case):
             require(s.realbounds is not None, f"{t}: realbounds missing for a triclinic cell")
             close(f"{t}: realbounds", s.realbounds, e["realbounds"], rtol=1e-12, atol=atol)
         cmp_positions(t, s.positions, e, atol)
-        if case["style"] == "x" and case["cellkind"] == "ortho":
+        if case["style"] == "x" and e["realbounds"] is None:
             p = arr(f"{t}: positions", s.positions, shape=(e["nparticle"], d))
             lo, hi = e["boxbounds"][:, 0], e["boxbounds"][:, 1]
             # a coordinate printed within 1e-9 of a face may legitimately be left where it is
@@ -617,10 +621,13 @@ def case_tags(case, frames, expected, text):
     negtilt = any(np.any(fr["cell"]["H"] < 0) for fr in frames)
     nontrivial = bool(shuffled or origin or tilt or case["style"] != "x" or len(frames) >= 2)
     T = len(frames)
-    tags = [f"d{d}", case["style"], case["cellkind"], f"frames{T}" if T <= 4 else "frames5+", "fmt" + case["fmt"],
+    tags = [f"d{d}", case["style"]] + sorted({fr["cell"]["kind"] for fr in frames}) + [
+            f"frames{T}" if T <= 4 else "frames5+", "fmt" + case["fmt"],
             "shuffled" if shuffled else "ordered", "origin" if origin else "origin0"]
     if negtilt:
         tags.append("negtilt")
+    if len({fr["cell"]["kind"] for fr in frames}) > 1:
+        tags.append("cell-kinds-mixed")
     if any(len(set(np.diag(fr["cell"]["H"]).tolist())) > 1 for fr in frames):
         tags.append("unequal-edges")
     ts = case["timesteps"]
@@ -817,9 +824,9 @@ FACETS = [
     _facet("tri_x", 200, 20000, cellkinds=("tri",), styles=("x",)),
     _facet("tri_xs", 300, 20000, cellkinds=("tri",), styles=("xs",)),
     _facet("tri_xu", 200, 20000, cellkinds=("tri",), styles=("xu",)),
-    _facet("multi_frame", 300, 20000, frames=(2, 4)),
-    Facet("sizes", sizes_st(BLOCKS_QUICK, frame_blocks=[32, 64, 100, 128]), check, quick=360, thorough=0, describe=describe,
-          shards_quick=4,
+    _facet("multi_frame", 400, 20000, frames=(2, 4)),
+    Facet("sizes", sizes_st(BLOCKS_QUICK, frame_blocks=[32, 64, 100, 128]), check, quick=600, thorough=0, describe=describe,
+          shards_quick=4, quick_budget_s=240.0,
           rule="size-boundary classes, quick: atoms per frame B-1, B, B+1, 2B-1, 2B+1, B+B//3 for B in {32, 64, 100, 128, "
                "256} (1-3 frames), frames per file around B in {32, 64, 100, 128} with 0-4 atoms each; seeded synthesis; "
                "all layouts / styles / cells"),
@@ -828,7 +835,8 @@ FACETS = [
           check, quick=0, thorough=1600, describe=describe,
           rule="thorough tier only: as sizes with B in {32, 50, 64, 100, 128, 200, 256, 500, 512, 1000, 1024} (N up to 2049, frames up to 2049) and long files "
                "(N = 5000, 10000, 20000 x 1-4 frames: 0.2 - 5 MiB, beyond every I/O buffer size)"),
-    Facet("sequence", sequence_st(), check_sequence, quick=250, thorough=12000, describe=describe_sequence, shards_quick=2,
+    Facet("sequence", sequence_st(), check_sequence, quick=300, thorough=12000, describe=describe_sequence, shards_quick=2,
+          quick_budget_s=240.0,
           rule="2-3 small files x 3-7 reads under two re-used file names (contents replaced between reads), through "
                "read_lammps_wrapper, fresh DumpReader objects and ONE DumpReader evaluated repeatedly; every result "
                "compared at return and again (oracle + bit-for-bit with a copy taken at return) after all reads; "
